@@ -55,6 +55,13 @@ fn inverse_cdf<K: Bounded + Clone + Num + Debug + PartialOrd, T: Float>(s: &impl
     high
 }
 
+/// statrs panics (unwraps its own domain errors) when extreme parameters push an intermediate value out of the
+/// domain of its special functions (gamma/beta with subnormal or astronomically large arguments); such a
+/// failure is an error value of the language, not a failure of the interpreter
+fn guarded<X>(f: impl FnOnce() -> X) -> Option<X> {
+    std::panic::catch_unwind(std::panic::AssertUnwindSafe(f)).ok()
+}
+
 #[derive(Debug, Clone)]
 pub(crate) struct XDiscreteDistributionType;
 
@@ -471,7 +478,8 @@ pub(crate) fn add_discdist_cdf<W, R, T>(
             let a1 = xraise!(eval(&args[1], ns, &rt)?);
             let d0 = to_native!(a0, XDiscreteDistribution);
             let i1 = to_primitive!(a1, Int);
-            let ret = xraise!(XValue::float(d0.cdf(i1), &rt)?);
+            let Some(v) = guarded(|| d0.cdf(i1)) else { return xerr(ManagedXError::new("numeric failure in the distribution function", rt)?); };
+            let ret = xraise!(XValue::float(v, &rt)?);
             Ok(ManagedXValue::new(ret, rt)?.into())
         }),
     )
@@ -488,7 +496,8 @@ pub(crate) fn add_discdist_pmf<W, R, T>(
             let a1 = xraise!(eval(&args[1], ns, &rt)?);
             let d0 = to_native!(a0, XDiscreteDistribution);
             let f1 = to_primitive!(a1, Int);
-            let ret = xraise!(XValue::float(d0.pmf(f1), &rt)?);
+            let Some(v) = guarded(|| d0.pmf(f1)) else { return xerr(ManagedXError::new("numeric failure in the distribution function", rt)?); };
+            let ret = xraise!(XValue::float(v, &rt)?);
             Ok(ManagedXValue::new(ret, rt)?.into())
         }),
     )
@@ -508,7 +517,7 @@ pub(crate) fn add_discdist_quantile<W, R, T>(
             if *f1 > 1.0 || *f1 < 0.0 {
                 return xerr(ManagedXError::new("quantile must be between 0 and 1", rt)?);
             }
-            let Some(q) = d0.quantile(*f1) else { return xerr(ManagedXError::new("quantile is not finite", rt)?); };
+            let Some(q) = guarded(|| d0.quantile(*f1)).flatten() else { return xerr(ManagedXError::new("quantile is not finite", rt)?); };
             Ok(ManagedXValue::new(XValue::Int(q), rt)?.into())
         }),
     )
